@@ -329,6 +329,32 @@ std::vector<Workload> build()
             }
         }
     }
+    // 5c. builders on objects constructed from a TRUNCATED raw image (every length below the class header): whatever the builder
+    //     does about the missing header bytes, they must not come from beyond the image
+    for (int cls = 0; cls < 5; ++cls)
+    {
+        const size_t hdrs[5] = {16, 16, 8, 6, 16};
+        w.push_back({fmt("build on truncated image cls%d", cls), [=](Out& o) {
+                         for (size_t k = 0; k < hdrs[cls]; ++k)
+                             for (size_t len : {(size_t) 0, (size_t) 3, (size_t) 8})
+                             {
+                                 // exact-size heap image
+                                 std::unique_ptr<uint8_t[]> img(new uint8_t[k ? k : 1]);
+                                 for (size_t i = 0; i < k; ++i)
+                                     img[i] = (uint8_t) (0x11 * (i + 1));
+                                 Bytes d = pt(len, 1);
+                                 auto emit = [&](Payload& p) { o.bytes(p.getRawPayload(), p.getLength()); o.val(p.getLength()); };
+                                 switch (cls)
+                                 {
+                                     case 0: { CanPayload p(img.get(), k); p.setData(d.data(), (uint8_t) len); emit(p); break; }
+                                     case 1: { CanFdPayload p(img.get(), k); p.setData(d.data(), (uint8_t) len); emit(p); break; }
+                                     case 2: { LinPayload p(img.get(), k); p.setData(d.data(), (uint8_t) len); emit(p); break; }
+                                     case 3: { EthernetPayload p(img.get(), k); p.setData(d.data(), (uint16_t) len); emit(p); break; }
+                                     default: { AnalogPayload p(img.get(), k); p.setData(d.data(), len); emit(p); break; }
+                                 }
+                             }
+                     }});
+    }
     // 6. payload builders with prior contents: raw bytes
     for (int prior = 0; prior < 3; ++prior)
     {
